@@ -154,11 +154,14 @@ Definition mrd (mask : list bool) (vals : list T) : list T :=
 
 (* ------------------------------------------------------- whole pipelines *)
 (* symmetry=None: histogram, smoothing, no mask, MRD optional *)
-Definition pdf_plain (lower : bool) (ea ep w : list T) (domrd : bool) (vs : list (vec3 (T:=T))) (ws : list T)
-  : list T :=
+Definition pdf_of_samples (ea ep w : list T) (domrd : bool) (ss : list sample) : list T :=
   let nr := pred (length ea) in let nc := pred (length ep) in
-  let h := concat (gauss2d w nr nc (hist2d ea ep (samples_of vs ws))) in
+  let h := concat (gauss2d w nr nc (hist2d ea ep ss)) in
   if domrd then mrd (repeat true (length h)) h else h.
+
+Definition pdf_plain (ea ep w : list T) (domrd : bool) (vs : list (vec3 (T:=T))) (ws : list T)
+  : list T :=
+  pdf_of_samples ea ep w domrd (samples_of vs ws).
 
 (* with symmetry: vectors are first projected into the fundamental sector by
    [fs] (Vector3d.in_fundamental_sector -- external to this model, see C07); the
